@@ -571,3 +571,112 @@ pub fn containers(tier: Tier) -> Vec<V> {
     }
     v
 }
+
+// ---------------------------------------------------------------------------------------------
+// Size witnesses: values at and around the sizes where buffers, length fields and recursion
+// limits live (2^6, 2^7, 2^8, 2^10, 2^12, 2^13, 2^16), which the small alphabets above never reach.
+
+fn pattern_string(n: usize, plain: bool) -> String {
+    const MIX: &[char] = &['a', 'Z', '0', ' ', 'é', '"', '\\', '\n', '😀', '$', 'x', ',', '`', '\t', 'Ω'];
+    const PLAIN: &[char] = &['a', 'Z', '0', 'b', '_', 'c', '9'];
+    let set = if plain { PLAIN } else { MIX };
+    (0..n).map(|i| set[(i * 7 + i / set.len()) % set.len()]).collect()
+}
+
+pub const SIZE_LENGTHS: &[usize] = &[5, 8, 16, 31, 32, 33, 63, 64, 65, 127, 128, 129, 255, 256, 257, 1023, 1024, 1025, 4095, 4096, 4097, 8191, 8192, 8193, 65535, 65536, 65537];
+
+pub fn size_witnesses(tier: Tier) -> Vec<V> {
+    let mut v = vec![];
+    let lens: Vec<usize> = SIZE_LENGTHS.iter().copied().filter(|&n| tier == Tier::Thorough || n <= 8193).collect();
+    for &n in &lens {
+        v.push(V::Str(pattern_string(n, false)));
+        v.push(V::Str(pattern_string(n, true)));
+        if n <= 8193 {
+            let uri: String = pattern_string(n, false).chars().filter(|c| !c.is_control()).collect();
+            v.push(V::Uri(uri));
+            v.push(V::Ref(pattern_string(n, true), Some(pattern_string(n, false))));
+            v.push(V::Sym(format!("s{}", pattern_string(n, true))));
+            v.push(V::XStr("Bin".into(), pattern_string(n, false)));
+            v.push(V::dict(&[(format!("t{}", pattern_string(n, true)).as_str(), V::Marker)]));
+        }
+    }
+    // wide containers
+    for &n in &[5usize, 16, 17, 64, 255, 256, 257, 1000, 4096] {
+        if tier == Tier::Quick && n > 1000 {
+            continue;
+        }
+        v.push(V::List((0..n).map(|i| if i % 3 == 0 { V::num(i as f64) } else if i % 3 == 1 { V::Str(format!("s{i}")) } else { V::Marker }).collect()));
+        let tags: Vec<(String, V)> = (0..n).map(|i| (format!("t{i}"), if i % 2 == 0 { V::num(i as f64 + 0.5) } else { V::Marker })).collect();
+        let mut tags = tags;
+        tags.sort_by(|a, b| a.0.cmp(&b.0));
+        v.push(V::Dict(tags.clone()));
+        // a grid with n columns and 2 rows, and one with 3 columns and n rows
+        if n <= 1000 {
+            let cols: Vec<Col> = (0..n).map(|i| Col { name: format!("c{i}"), meta: if i % 5 == 0 { Some(mk_tags(&[("dis", V::Str(format!("Col {i}")))])) } else { None } }).collect();
+            let mut row: Tags = (0..n).filter(|i| i % 4 != 1).map(|i| (format!("c{i}"), if i % 4 == 0 { V::num(i as f64) } else { V::Str(format!("v{i}")) })).collect();
+            row.sort_by(|a, b| a.0.cmp(&b.0));
+            v.push(V::Grid(Box::new(G { ver: "3.0".into(), meta: None, cols, rows: vec![row.clone(), vec![], row] })));
+        }
+        let rows: Vec<Tags> = (0..n)
+            .map(|i| {
+                let mut t = vec![("a", V::num(i as f64))];
+                if i % 2 == 0 {
+                    t.push(("b", V::Str(pattern_string(i % 50, false))));
+                }
+                if i % 7 == 0 {
+                    t.push(("c", V::List(vec![V::num(1.0), V::Marker])));
+                }
+                mk_tags(&t)
+            })
+            .collect();
+        v.push(V::Grid(Box::new(G {
+            ver: "3.0".into(),
+            meta: Some(mk_tags(&[("dis", V::str("big"))])),
+            cols: vec![Col { name: "a".into(), meta: None }, Col { name: "b".into(), meta: None }, Col { name: "c".into(), meta: None }],
+            rows,
+        })));
+    }
+    // deep nesting below the decoders' limit (128): list / dict / grid chains and mixed
+    for &d in &[8usize, 16, 32, 40, 60, 100, 120, 126, 127] {
+        for pat in [b"l".as_slice(), b"d", b"g", b"ldg", b"gl"] {
+            let mut cur = V::num(1.0);
+            for i in (0..d).rev() {
+                cur = match pat[i % pat.len()] {
+                    b'l' => V::List(vec![cur]),
+                    b'd' => V::dict(&[("a", cur)]),
+                    _ => V::Grid(Box::new(G { ver: "3.0".into(), meta: None, cols: vec![Col { name: "a".into(), meta: None }], rows: vec![mk_tags(&[("a", cur)])] })),
+                };
+            }
+            v.push(cur);
+        }
+    }
+    v
+}
+
+/// nesting depth of the Hayson document of a value (JSON arrays and objects)
+pub fn json_depth(v: &V) -> usize {
+    let tags = |t: &Tags| t.iter().map(|(_, x)| json_depth(x)).max().unwrap_or(0);
+    match v {
+        V::Null | V::Bool(_) | V::Str(_) => 0,
+        V::Num(x, None) if x.is_finite() => 0,
+        V::List(l) => 1 + l.iter().map(json_depth).max().unwrap_or(0),
+        V::Dict(d) => 1 + tags(d),
+        V::Grid(g) => {
+            let meta = 1 + g.meta.as_ref().map_or(0, |m| tags(m));
+            let cols = 2 + g.cols.iter().map(|c| c.meta.as_ref().map_or(0, |m| 1 + tags(m))).max().unwrap_or(0);
+            let rows = 2 + g.rows.iter().map(|r| tags(r)).max().unwrap_or(0);
+            1 + meta.max(cols).max(rows)
+        }
+        _ => 1,
+    }
+}
+
+/// `size_witnesses`, built once per tier
+pub fn size_witnesses_cached(tier: Tier) -> &'static Vec<V> {
+    static Q: std::sync::OnceLock<Vec<V>> = std::sync::OnceLock::new();
+    static T: std::sync::OnceLock<Vec<V>> = std::sync::OnceLock::new();
+    match tier {
+        Tier::Quick => Q.get_or_init(|| size_witnesses(Tier::Quick)),
+        Tier::Thorough => T.get_or_init(|| size_witnesses(Tier::Thorough)),
+    }
+}
